@@ -16,7 +16,7 @@ use crate::{
     plan::Plan,
 };
 
-pub const CPU_LIMIT_S: u64 = 30;
+pub const CPU_LIMIT_S: u64 = 60;
 pub const MEM_LIMIT: u64 = 8 << 30;
 pub const WALL_LIMIT_MS: i32 = 300_000;
 
